@@ -806,11 +806,20 @@ func (s *DB) getHistoricRootsAndNodes(
 			continue
 		}
 		rootCacheByName[name] = root
+		// A listed version with missing nodes is what an interrupted vacuum
+		// left behind (it deletes nodes before version objects): there is
+		// nothing of it to keep, and it must not stop every later vacuum.
 		kept, err := crdt.Load(ctx, loadConfig, &name, *root)
 		if err != nil {
+			if isNoSuchKey(err) {
+				continue
+			}
 			return nil, nil, err
 		}
 		if err := keep(kept.Mast); err != nil {
+			if isNoSuchKey(err) {
+				continue
+			}
 			return nil, nil, err
 		}
 	}
